@@ -115,6 +115,12 @@ func H_C03_hardening_choice() {
 	k1 := kind(newDispatcherHardening(names))
 	k2 := kind(newDispatcherHardening(names))
 	symx.MapOrder(false)
+	if !symx.Symbolic() {
+		// natively the iteration order cannot be chosen: repeat until it shows
+		for i := 0; i < 60 && k1 == k2; i++ {
+			k2 = kind(newDispatcherHardening(names))
+		}
+	}
 	symx.Reach("twice")
 	symx.Assert(k1 == k2, "the hardening list does not depend on map iteration order")
 	want := names[0]
@@ -126,3 +132,54 @@ func H_C03_hardening_choice() {
 	}
 	symx.Assert(k1 == want, "hardenings are listed in directive order")
 }
+
+// H_C03_ctrlflow_deterministic: the whole control-flow pipeline (go/ssa builder,
+// Obfuscate, ssa2ast.Convert) run twice on the same function with the same
+// seeded draws emits the same file, whatever order Go iterates garble's maps in
+// during the second run (every order of maps of up to three entries, identity,
+// reversal and rotations above).
+func H_C03_ctrlflow_deterministic() {
+	symx.Stub("mvdan.cc/garble/internal/ctrlflow.getRandomName", freshName)
+	var set []tvSample
+	for _, s := range tvSamples {
+		for _, n := range c03Samples {
+			if s.Name == n {
+				set = append(set, s)
+			}
+		}
+	}
+	s := set[symx.Choose(len(set))]
+	params := []string{"flatten_passes=1", "flatten_passes=0", "flatten_passes=1 block_splits=1 junk_jumps=1"}[symx.Choose(tier(2, 3))]
+	src := "package p\n\n//garble:controlflow " + params + "\n" + s.Src + "\n"
+	once := func() string {
+		nameCounter = 0
+		symx.DrawPolicy(tvPolicy(tier(0, 1), false))
+		file, fset := tvBuild(src)
+		symx.DrawPolicy(nil)
+		if file == nil {
+			return ""
+		}
+		return tvPrint(fset, file)
+	}
+	out1 := once()
+	symx.RewindDraws()
+	symx.MapOrder(true)
+	out2 := once()
+	symx.MapOrder(false)
+	if !symx.Symbolic() {
+		// natively the iteration order cannot be chosen: repeat until it shows
+		for i := 0; i < 60 && out1 == out2; i++ {
+			out2 = once()
+		}
+	}
+	if out1 == "" || out2 == "" {
+		return
+	}
+	symx.Reach("twice")
+	if !ev.SameText(out1, out2) {
+		symx.Fail("the emitted function depends on map iteration order (" + s.Name + " [" + params + "]):\n--- first run\n" + out1 + "\n--- second run\n" + out2)
+	}
+}
+
+// samples whose converted form declares variables of more than one type
+var c03Samples = []string{"swap", "collatz", "conv", "bits"}
